@@ -24,7 +24,14 @@ def builtinHier : Hier := builtinTab.toHier
 /-- the decision shape of the code the model mirrors, as read from the AST on this run -/
 def shapeOK : Bool :=
   Generated.c13InitFresh && Generated.c13InitOrder && Generated.c13RegisterResetsMemo &&
-  Generated.c13RegisterOpResetsMemo && Generated.c13ClosestPicksMin &&
+  Generated.c13RegisterOpResetsMemo &&
+  -- rejected calls: every write of `register` / `register_op` to `_op_type_map` / `_op_type_tree` /
+  -- `_type_cache` comes after the last `raise` (validate, then write), the only earlier write being
+  -- the `setdefault` of an empty per-op table; a failed lookup raises before the memo write
+  Generated.c13RegisterWritesAfterLastRaise && Generated.c13RegisterOpWritesAfterLastRaise &&
+  Generated.c13RegisterEarlyWrites.all (· == "_op_type_map.setdefault(k, <empty>)") &&
+  Generated.c13RegisterOpEarlyWrites.isEmpty &&
+  Generated.c13MemoStoresOnlySuccess && Generated.c13ClosestPicksMin &&
   Generated.c13ClosestDropsSupers && Generated.c13MatchingDeepest &&
   Generated.c13FuzzyGuardsExisting &&
   Generated.c13GlommerOwnRegistry && Generated.c13GlommerCopiesOps &&
